@@ -227,6 +227,76 @@ Definition h_borrow (w : hworld) (a b : nat) (amount : Z) : res hworld :=
   let* bk5 := update_bank_cache (hb_b hb3) (hw_pf w) (hw_now w) in
   Ok (put_hbank w3 b (set_hb_b bk5 hb3)).
 
+(* ------------------------------------------------------------------------------------------ *)
+(* The same two instructions called WITHOUT their risk (bank / oracle) remaining accounts: everything up to the health
+   check is identical; RiskEngine::new cannot load the first active balance and answers InvalidBankAccount, unless the
+   account is inside a flash loan (check skipped) or has no active balance left (nothing to load). *)
+Definition init_health_check_norem (ac : hacct) : res unit :=
+  if aflag ac ACCOUNT_IN_FLASHLOAN then Ok tt else
+  if existsb bl_active (ha_la ac) then Err (E E_InvalidBankAccount) else Ok tt.
+
+Definition h_borrow_norem (w : hworld) (a b : nat) (amount : Z) : res hworld :=
+  let* hb := nth_bank w b in let* ac := nth_acct w a in
+  let bk := hb_b hb in
+  let* _ := check (is_marginfi_tag (b_asset_tag bk)) (E E_WrongAssetTagForStandardInstructions) in
+  let* _ := check (negb (get_flag (b_flags bk) TOKENLESS_REPAYMENTS_ALLOWED)) (E E_ForbiddenIx) in
+  let* _ := check (negb (aflag ac ACCOUNT_DISABLED) && negb (aflag ac ACCOUNT_IN_RECEIVERSHIP)) (E E_AccountDisabled) in
+  let* bk1 := accrue_interest bk (hw_pf w) (hw_now w) in
+  let* _ := validate_asset_tags bk1 (ha_la ac) in
+  let* _ := validate_bank_state bk1 KFailsIfPausedOrReduce in
+  let* (i, la1) := wrapper_find_or_create (bank_pk b) bk1 (ha_la ac) (hw_now w) in
+  let* bl := nth_res i la1 in
+  let* pre := pre_fee hb amount in
+  let* (delta, ofee) :=
+    if hb_orig_fee hb =? 0 then Ok (of_int pre, 0)
+    else let* f := math (cmul (of_int pre) (hb_orig_fee hb)) in
+         let* _ := math (to_u64_checked f) in
+         let* d := uadd (of_int pre) f in Ok (d, f) in
+  let* (bk2, bl2) := decrease_balance bk1 bl (t64 w) delta DecBorrowOnly in
+  let w1 := put_hacct (put_hbank w b (set_hb_b bk2 hb)) a (mkHA (set_nth i bl2 la1) (ha_flags ac)) in
+  let* w2 := xfer_out w1 a b pre in
+  let* hb2 := nth_bank w2 b in
+  let bk3 := hb_b hb2 in
+  let* bk4 :=
+    if ofee =? 0 then Ok bk3 else
+    if pf_rate (hw_pf w) =? 0 then Ok (set_b_grp (clamp I128_MIN I128_MAX (b_grp bk3 + ofee)) bk3)
+    else
+      let* pfa := math (cmul ofee (pf_rate (hw_pf w))) in
+      let rest := clamp I128_MIN I128_MAX (ofee - pfa) in
+      Ok (set_b_prog (clamp I128_MIN I128_MAX (b_prog bk3 + pfa))
+                     (set_b_grp (clamp I128_MIN I128_MAX (b_grp bk3 + rest)) bk3)) in
+  let* ac2 := nth_acct w2 a in
+  let ac3 := sort_acct ac2 in
+  let w3 := put_hacct (put_hbank w2 b (set_hb_b bk4 hb2)) a ac3 in
+  let* _ := init_health_check_norem ac3 in
+  let* hb3 := nth_bank w3 b in
+  let* bk5 := update_bank_cache (hb_b hb3) (hw_pf w) (hw_now w) in
+  Ok (put_hbank w3 b (set_hb_b bk5 hb3)).
+
+Definition h_withdraw_norem (w : hworld) (a b : nat) (amount : Z) (all : bool) : res hworld :=
+  let* hb := nth_bank w b in let* ac := nth_acct w a in
+  let bk := hb_b hb in
+  let* _ := check (is_marginfi_tag (b_asset_tag bk)) (E E_WrongAssetTagForStandardInstructions) in
+  let* _ := check (negb (aflag ac ACCOUNT_DISABLED)) (E E_AccountDisabled) in
+  let* _ := validate_bank_state bk KFailsInPaused in
+  let* bk1 := accrue_interest bk (hw_pf w) (hw_now w) in
+  let* i := wrapper_find (bank_pk b) (ha_la ac) in
+  let* bl := nth_res i (ha_la ac) in
+  let* (bk2, bl2, pre) :=
+    if all then withdraw_all bk1 bl (t64 w)
+    else let* pre := pre_fee hb amount in
+         let* (bk2, bl2) := decrease_balance bk1 bl (t64 w) (of_int pre) DecWithdrawOnly in Ok (bk2, bl2, pre) in
+  let pre := if get_flag (b_flags bk2) TOKENLESS_REPAYMENTS_COMPLETE then Z.min pre (hb_vault hb) else pre in
+  let w1 := put_hacct (put_hbank w b (set_hb_b bk2 hb)) a (mkHA (set_nth i bl2 (ha_la ac)) (ha_flags ac)) in
+  let* w2 := xfer_out w1 a b pre in
+  let* hb2 := nth_bank w2 b in
+  let* bk3 := update_bank_cache (hb_b hb2) (hw_pf w) (hw_now w) in
+  let* ac2 := nth_acct w2 a in
+  let ac3 := sort_acct ac2 in
+  let w3 := put_hacct (put_hbank w2 b (set_hb_b bk3 hb2)) a ac3 in
+  let* _ := init_health_check_norem ac3 in
+  Ok w3.
+
 (* lending_account_repay *)
 Definition h_repay (w : hworld) (a b : nat) (amount : Z) (all : bool) : res hworld :=
   let* hb := nth_bank w b in let* ac := nth_acct w a in
